@@ -346,3 +346,53 @@ Section Forward.
     exact Hv.
   Qed.
 End Forward.
+
+(* a chain that is valid w.r.t. the adjacency lists passes the boolean checker for any edge test
+   [joined] that accepts the adjacency lists' entries *)
+Lemma as_chain_checker : forall adj joined, (forall a e b, In (a, e) (adj b) -> joined e a b = true) ->
+  forall ns es, as_chain adj ns es -> as_chain_ok joined ns es = true.
+Proof.
+  intros adj joined Hj ns es H. induction H as [a | a b e ns es Hin Hc IH]; [reflexivity |].
+  change (joined e a b && as_chain_ok joined (b :: ns) es = true). now rewrite (Hj _ _ _ Hin), IH.
+Qed.
+
+(* ------------------------------------------------------------------ concrete instances *)
+Lemma as_budget_refuted :
+  exists (adj : nat -> list (nat * nat)) (h : nat -> nat -> Z) (n_edges : nat),
+    adj = (fun n => match n with 0 => [(1, 0)] | 1 => [(0, 0); (2, 1)] | 2 => [(1, 1)] | _ => [] end)%nat /\
+    n_edges = 2%nat /\
+    (forall a b e, In (b, e) (adj a) -> (0 <= h a b)%Z /\ (a <> b -> (0 < h a b)%Z)) /\
+    (exists m, as_path adj h 0 2 false n_edges = AS_PathFindingError m) /\
+    (exists m, as_path adj h 0 2 false (S n_edges) = AS_Path [2; 1; 0]%nat [1; 0]%nat m) /\
+    (exists m, as_path adj h 0 2 true n_edges = AS_Path [2; 1; 0]%nat [1; 0]%nat m).
+Proof.
+  exists (fun n => match n with 0 => [(1, 0)] | 1 => [(0, 0); (2, 1)] | 2 => [(1, 1)] | _ => [] end)%nat,
+         (fun a b : nat => Z.abs (Z.of_nat a - Z.of_nat b)), 2%nat.
+  split; [reflexivity |]. split; [reflexivity |]. split.
+  - intros a b e Hin. split; [lia |]. intros Hab.
+    destruct a as [| [| [| a]]]; simpl in Hin; intuition; inversion H; subst; simpl; lia.
+  - split; [| split]; eexists; vm_compute; reflexivity.
+Qed.
+
+Lemma as_path_example :
+  let adj := (fun n => match n with
+                       | 0 => [(1, 0); (2, 2)] | 1 => [(0, 0); (2, 1); (3, 3)]
+                       | 2 => [(1, 1); (0, 2); (3, 4)] | 3 => [(1, 3); (2, 4)] | _ => [] end)%nat in
+  let h := (fun a b => if (a =? b)%nat then 0 else 3 + Z.of_nat (a + b))%Z in
+  (forall a b e, In (b, e) (adj a) -> (0 <= h a b)%Z /\ (a <> b -> (0 < h a b)%Z)) /\
+  as_path adj h 0 3 false 5 = AS_Path [3; 1; 0]%nat [3; 0]%nat (Some 2%Z) /\
+  as_path adj h 0 3 true 5 = AS_Path [3; 1; 0]%nat [3; 0]%nat (Some 2%Z).
+Proof.
+  split; [| split; vm_compute; reflexivity].
+  intros a b e _. destruct (Nat.eqb_spec a b); split; intros; try lia; contradiction.
+Qed.
+
+(* start = goal: the first pop is the goal, the backward pass does not iterate:
+   the result is ([start], []) for every positive budget, both stopping modes *)
+Lemma as_path_start_eq_goal :
+  forall adj h s early n, as_path adj h s s early (S n) = AS_Path [s] [] None.
+Proof.
+  intros. unfold as_path, as_forward, as_init. simpl.
+  unfold as_entry_eqb. simpl. rewrite !Nat.eqb_refl. simpl.
+  unfold as_backward. simpl. rewrite Nat.eqb_refl. reflexivity.
+Qed.
